@@ -33,6 +33,16 @@ def load_inventory():
     return j
 
 
+def ref_of(ref, what, cfg):
+    """fingerprint / size of an inventory function in the build configuration being analysed (bodies differ between configurations)"""
+    if not ref:
+        return None
+    v = ref.get(what)
+    if isinstance(v, dict):
+        return v.get(cfg)
+    return v
+
+
 def fn_sig(f):
     """type signature of a function: kind, parameter types, return type, trait item"""
     return "%s|%s|%s->%s" % (f.kind, f.j.get("trait_item") or "", ",".join(f.ty(f.locals[i]["ty"])["s"] for i in range(1, f.arg_count + 1)),
@@ -58,6 +68,7 @@ def normalise_renames(prog, Fn, inv):
     dump.  Same for a struct field whose name changed while its position and type did not.  Returns the list of renames."""
     renames = []
     fns = inv.get("fns", {})
+    cfg = getattr(prog, "meta", {}).get("config")
     # ---- renamed types: an ADT of the inventory vanished while exactly one new ADT with the same shape, kind, file and set of
     # implemented traits appeared: its old path is restored in every path and type string of the dump first
     type_map = {}
@@ -132,10 +143,10 @@ def normalise_renames(prog, Fn, inv):
         rivals = [m2 for m2 in missing if fns[m2].get("file") == fns[m].get("file") and fns[m2]["sig"] == fns[m]["sig"]]
         if len(c) == 1 and len(rivals) == 1:
             pairs[c[0]] = m
-        elif len(c) > 1 and fns[m].get("print"):
+        elif len(c) > 1 and ref_of(fns[m], "print", cfg):
             # several same-signature functions were renamed together: tell them apart by their bodies
-            c2 = [n for n in c if fn_print(prog, cur[n]) == fns[m]["print"]]
-            r2 = [m2 for m2 in rivals if fns[m2].get("print") == fns[m]["print"]]
+            c2 = [n for n in c if fn_print(prog, cur[n]) == ref_of(fns[m], "print", cfg)]
+            r2 = [m2 for m2 in rivals if ref_of(fns[m2], "print", cfg) == ref_of(fns[m], "print", cfg)]
             if len(c2) == 1 and len(r2) == 1:
                 pairs[c2[0]] = m
     # moved, not renamed: same name and signature in another file / impl block of the same crate
@@ -1009,6 +1020,7 @@ def expand(prog, Fn, log=None):
     prog.desugared = []
     if not os.environ.get("RPX_NO_DESUGAR"):
         finv = inv.get("fns", {})
+        cfg_ = getattr(prog, "meta", {}).get("config")
         for k in sorted(prog.fns):
             f0 = prog.fns.get(k)
             if f0 is None or f0.crate not in ("redproxy_rs", "milu"):
@@ -1016,9 +1028,10 @@ def expand(prog, Fn, log=None):
             tk = top_key(k)
             top = prog.fns.get(tk)
             ref = finv.get(tk)
-            edited = ref is None or (top is not None and ref.get("print") and fn_print(prog, top) != ref["print"]) or \
-                (ref is not None and ref.get("nblocks") is not None and top is not None and len(prog.body_of(top).blocks) != ref["nblocks"])
-            if not edited:
+            rp, rn_ = ref_of(ref, "print", cfg_), ref_of(ref, "nblocks", cfg_)
+            edited = ref is None or (top is not None and rp and fn_print(prog, top) != rp) or \
+                (rn_ is not None and top is not None and len(prog.body_of(top).blocks) != rn_)
+            if not edited and not os.environ.get("RPX_FORCE_DESUGAR"):
                 continue
             try:
                 nf = desugar_combinators(prog, Fn, f0)
